@@ -45,8 +45,13 @@ def nl_cases(draw):
         for op in ops:
             if op[0] == 'find' and draw(st.booleans()):
                 op[1]['numa'] = True
+    via_pilot = False
+    if not numa and draw(st.booleans()):
+        via_pilot = True
+        for _ in range(draw(st.integers(1, 3))):
+            ops.insert(draw(st.integers(1, len(ops))), ['pilot_update'])
     return {'kind': 'nodelist', 'n': n, 'c': c, 'g': g, 'lfs': lfs, 'mem': mem,
-            'bc': bc, 'bg': bg, 'ops': ops, 'numa': numa}
+            'bc': bc, 'bg': bg, 'ops': ops, 'numa': numa, 'via_pilot': via_pilot}
 
 
 @st.composite
@@ -106,6 +111,29 @@ def run_nodelist(case):
     else:
         nl = NodeList(nodes=[Node(copy.deepcopy(r)) for r in raw])
     nl.verify()
+
+    pilot, pilot_doc = None, None
+    if case.get('via_pilot') and not case.get('numa'):
+        # the application's way to the node list: a real Pilot which learned the resource
+        # details from the agent's PMGR_ACTIVE notification; Pilot.nodelist builds and keeps it
+        from . import hollow
+        import radical.pilot.states as rps
+        sess  = hollow.HollowSession()
+        pmgr  = hollow.HollowPmgr(sess)
+        pmgr._call_pilot_callbacks = lambda pilot: None     # no manager-level callbacks here
+        pilot = hollow.real_pilot(pmgr, 'pilot.0000')
+        for st_ in (rps.PMGR_LAUNCHING_PENDING, rps.PMGR_LAUNCHING, rps.PMGR_ACTIVE_PENDING):
+            pilot._update({'uid': pilot.uid, 'type': 'pilot', 'state': st_})
+        pilot_doc = {'uid': pilot.uid, 'type': 'pilot', 'state': rps.PMGR_ACTIVE,
+                     'resources': {'cpu': n * c, 'gpu': n * g,
+                                   'rm_info': {'node_list': copy.deepcopy(raw), 'cores_per_node': c,
+                                               'gpus_per_node': g, 'numa_domain_map': None}}}
+        pilot._update(copy.deepcopy(pilot_doc))
+        nl = pilot.nodelist
+        if nl is None:
+            P.append(('C01', 'nodelist:pilot_offers_no_nodelist', 'Pilot.nodelist is None after ACTIVE'))
+            return P, stats
+        stats['via_pilot'] = 1
 
     held = []          # list of slot lists (one per successful find)
     drift = {'seen': False}
@@ -188,6 +216,20 @@ def run_nodelist(case):
         return True
 
     for op in case['ops']:
+        if op[0] == 'pilot_update':
+            if pilot is None:
+                continue
+            # the agent's ACTIVE notification arrives again (the pilot manager hands repeated
+            # notifications on to the Pilot); the application keeps using pilot.nodelist
+            pilot._update(copy.deepcopy(pilot_doc))
+            nl = pilot.nodelist
+            stats['pilot_updates'] = stats.get('pilot_updates', 0) + (1 if held else 0)
+            if nl is None:
+                P.append(('C01', 'nodelist:pilot_offers_no_nodelist', 'after a repeated notification'))
+                break
+            if not compare('after repeated pilot notification'):
+                break
+            continue
         if op[0] == 'find':
             rrd, ns = op[1], max(1, int(op[2]))
             rr = RankRequirements(n_cores=rrd['n_cores'], core_occupation=rrd['core_occupation'],
